@@ -1,6 +1,7 @@
 import Cherab.Drv.Proto
 import Cherab.Model.RayTransfer
-open Cherab.Drv Cherab.RayTransfer
+import Cherab.Gen.RayTransfer
+open Cherab.Drv Cherab.RayTransfer Cherab.Gen.RayTransfer
 
 /-- integer mantissa and exponent of a positive finite double: `x = m * 2^e` exactly -/
 def mantExp (x : Float) : Nat × Int :=
@@ -43,7 +44,7 @@ def step (ts : List String) : String :=
         let ncell := pN n0 * pN n1 * pN n2
         let vm : VMap := { n0 := pN n0, n1 := pN n1, n2 := pN n2, data := (ints (rest.take ncell)).toArray }
         let spec0 := ((rest.drop ncell).map pF).toArray
-        showSpec (pN nb) (integrateCart truncF Float.sqrt vm.look (pN nb) dx dy dz st (pI ms) (specOf spec0)
+        showSpec (pN nb) (integrateCart truncF Float.sqrt vm.look (pN nb) nExtraCart dx dy dz st (pI ms) (specOf spec0)
           { sx := sx, sy := sy, sz := sz, ex := ex, ey := ey, ez := ez })
       | _ => "bad-op"
   | "cyl" :: n0 :: n1 :: n2 :: nb :: ms :: rest =>
@@ -53,14 +54,14 @@ def step (ts : List String) : String :=
         let ncell := pN n0 * pN n1 * pN n2
         let vm : VMap := { n0 := pN n0, n1 := pN n1, n2 := pN n2, data := (ints (rest.take ncell)).toArray }
         let spec0 := ((rest.drop ncell).map pF).toArray
-        showSpec (pN nb) (integrateCyl truncF Float.sqrt Float.atan2 fmodF piF vm.look (pN nb) (pN n1)
+        showSpec (pN nb) (integrateCyl truncF Float.sqrt Float.atan2 fmodF piF vm.look (pN nb) nExtraCyl (pN n1)
           dr dphi dz rmin period st (pI ms) (specOf spec0)
           { sx := sx, sy := sy, sz := sz, ex := ex, ey := ey, ez := ez })
       | _ => "bad-op"
-  | "plan" :: ms :: rest =>
+  | "plan" :: geo :: ms :: rest =>
       match rest.map pF with
       | [st, sx, sy, sz, ex, ey, ez] =>
-        match plan truncF Float.sqrt st (pI ms) { sx := sx, sy := sy, sz := sz, ex := ex, ey := ey, ez := ez } with
+        match plan truncF Float.sqrt (if geo == "cart" then nExtraCart else nExtraCyl) st (pI ms) { sx := sx, sy := sy, sz := sz, ex := ex, ey := ey, ez := ez } with
         | none => "short"
         | some p => s!"{p.n} {fFs [p.dt, p.ux, p.uy, p.uz]}"
       | _ => "bad-op"
